@@ -5,6 +5,7 @@ import (
 	"errors"
 	"fmt"
 	"io"
+	"os"
 	"regexp"
 	"strconv"
 	"strings"
@@ -1006,9 +1007,22 @@ func (e *env) scenDgram(u *vf.Unit) result {
 	if maxP <= 0 {
 		return result{skip: "no-room"}
 	}
+	// The server's own bound is its MTU estimate, which ignores the packet header: a datagram above what really
+	// fits is silently dropped by its packer. What certainly fits a 1280-byte packet: short header (1 + client
+	// connection ID + at most 4 bytes of packet number), AEAD tag, frame type and 2-byte length. Negative deltas
+	// try the few bytes above that (they are sent if the packet number is short enough).
+	dcid := 0
+	for _, rec := range e.w.Router.Trace(1 << 30) {
+		if pkts, _ := rec.Pkts.([]*sim.Packet); rec.Dir == "s2c" && len(pkts) > 0 && pkts[0].Kind == "1rtt" {
+			dcid = len(pkts[0].DCID)
+			break
+		}
+	}
+	fit := 1280 - 1 - dcid - 4 - 16
+	maxP = min(maxP, fit-3)
 	var sent [][]byte
 	for i, d := range e.sc.Deltas {
-		p := make([]byte, maxP-min(d, maxP))
+		p := make([]byte, max(0, maxP-min(d, maxP)))
 		fill(p, 0, e.c.Seed+uint64(i))
 		if err := e.sconn.SendDatagram(p); err != nil {
 			if v := e.alive(fmt.Sprintf("%s: while the peer was sending datagram #%d of %d bytes", what, i, len(p))); v != nil {
@@ -1034,6 +1048,9 @@ func (e *env) scenDgram(u *vf.Unit) result {
 		largest = max(largest, f.WireLen)
 		delivered = append(delivered, append([]byte(nil), f.Data...))
 	})
+	if os.Getenv("VERIF_C12_DEBUG") != "" {
+		fmt.Printf("dgram: adv %d maxP %d sent %d delivered %d exceeded %d largest %d\n", e.adv.dgram, maxP, len(sent), len(delivered), exceeded, largest)
+	}
 	if exceeded > 0 {
 		u.Class("dgram:peer-exceeded")
 		return result{skip: "peer-exceeded"}
@@ -1068,7 +1085,7 @@ func (e *env) scenDgram(u *vf.Unit) result {
 		return one(v)
 	}
 	u.Class(fmt.Sprintf("dgram:enabled=%v", e.c.Cfg.Datagrams))
-	atBoundary := float64(largest) >= 0.95*float64(min(int(e.adv.dgram), maxP+3))
+	atBoundary := float64(largest) >= 0.95*float64(min(int(e.adv.dgram), fit+3))
 	if atBoundary {
 		u.Class("dgram:at-boundary")
 	}
